@@ -56,11 +56,13 @@ func pipelineCmd(args []string) error {
 	outDir := fs.String("out", "", "")
 	tier := fs.String("tier", "quick", "")
 	seed := fs.Int64("seed", 1, "")
+	light := fs.Bool("light", false, "greys, gamut edges and the alpha sweep only (second pass under another GOMAXPROCS)")
+	outName := fs.String("name", "c04.ndjson", "")
 	fs.Parse(args)
 	if err := writeSpaces(*outDir); err != nil {
 		return err
 	}
-	sink, done, err := newSink(filepath.Join(*outDir, "c04.ndjson"))
+	sink, done, err := newSink(filepath.Join(*outDir, *outName))
 	if err != nil {
 		return err
 	}
@@ -69,6 +71,9 @@ func pipelineCmd(args []string) error {
 	nl, ngrey, nedge, nseed := 5, 32, 16, 250
 	if *tier == "thorough" {
 		nl, ngrey, nedge, nseed = 17, 256, 256, 12000 // ~307k events: 35 min of TLC at the measured 150 events/s/core
+	}
+	if *light {
+		nl, ngrey, nedge, nseed = 2, 32, 16, 20
 	}
 	var pix []color.NRGBA
 	lv := func(i, n int) uint8 { return uint8((i*255 + (n-1)/2) / (n - 1)) }
